@@ -167,7 +167,8 @@ def field_feed(combo, x, ftype='u8'):
             return 'usize:2;b[%d, 0];' % x
         return 'u8:%d;' % x
     if s[0] == 'key':
-        return 'u8:%d;' % (FK[x] if ftype == 'F' else KEY[s[1]][1](x))
+        v = FK[x] if ftype == 'F' else KEY[s[1]][1](x)
+        return v if isinstance(v, str) else 'u8:%d;' % v
     return 'u8:%d;' % BY[s[1]][1](x)
 
 
@@ -214,7 +215,7 @@ def relevant_combo(traits, combo):
 def make_item(name, variants, is_enum, traits, mode, extra_derives=(), discrs=None, item_attrs=(), bnd=None, targs=None):
     """variants: list of (named: bool, [(ftype, combo)]) ; returns request S-expression"""
     def fields_s(named, fl):
-        fs = [sx.field(sx.tarray(sx.tid('u8'), sx.clit('2')) if ft == 'A' else sx.tfn([sx.tid('u8')], sx.tid('u8')) if ft == 'F' else sx.tid('u8' if ft == 'u8' else 'W' if ft == 'W' else 'P'), name=('f%d' % i) if named else None,
+        fs = [sx.field(sx.tarray(sx.tid('u8'), sx.clit('2')) if ft == 'A' else sx.tfn([sx.tid('u8')], sx.tid('u8')) if ft == 'F' else sx.tid('u8' if ft == 'u8' else 'W' if ft == 'W' else 'I' if ft == 'I' else 'P'), name=('f%d' % i) if named else None,
                        attrs=combo_attrs(cb, ft)) for i, (ft, cb) in enumerate(fl)]
         if named:
             return sx.named(fs)
@@ -246,7 +247,7 @@ def rust_value(name, variants, is_enum, v):
     vi, t = v
     named, fl = variants[vi]
     def fv(ft, x):
-        return ('P(%d)' % x) if ft == 'P' else ('W(%d)' % x) if ft == 'W' else ('[%du8, 0]' % x) if ft == 'A' else ('(fn%d as fn(u8) -> u8)' % x) if ft == 'F' else ('%du8' % x)
+        return ('P(%d)' % x) if ft == 'P' else ('W(%d)' % x) if ft == 'W' else ('I(%d)' % x) if ft == 'I' else ('[%du8, 0]' % x) if ft == 'A' else ('(fn%d as fn(u8) -> u8)' % x) if ft == 'F' else ('%du8' % x)
     path = '%s::V%d' % (name, vi) if is_enum else name
     if named:
         return '%s { %s }' % (path, ', '.join('f%d: %s' % (i, fv(ft, x)) for i, ((ft, _), x) in enumerate(zip(fl, t))))
@@ -267,6 +268,18 @@ impl Hash for P { fn hash<H: Hasher>(&self, s: &mut H) { s.write_u8(self.0) } }
 pub struct W(pub u8);
 impl Ord for W { fn cmp(&self, o: &W) -> Ordering { if self.0 <= o.0 { Ordering::Less } else { Ordering::Greater } } }
 impl PartialOrd for W { fn partial_cmp(&self, o: &W) -> Option<Ordering> { Some(self.cmp(o)) } }
+/// a field type with INHERENT methods named like the trait methods, which mean something else (the reverse order, `!=`, another
+/// feed): generated code has to name the trait, not rely on method resolution
+#[derive(Debug, Clone, Copy, PartialEq, Eq, PartialOrd, Ord, Hash)]
+pub struct I(pub u8);
+#[allow(clippy::should_implement_trait)]
+impl I {
+    pub fn cmp(&self, o: &I) -> Ordering { o.0.cmp(&self.0) }
+    pub fn partial_cmp(&self, o: &I) -> Option<Ordering> { Some(o.0.cmp(&self.0)) }
+    pub fn eq(&self, o: &I) -> bool { self.0 != o.0 }
+    pub fn hash<H: Hasher>(&self, s: &mut H) { s.write_u8(200) }
+    pub fn clone(&self) -> I { I(99) }
+}
 '''
 
 
